@@ -107,11 +107,11 @@ theorem GRel.step_id {lv : Lv} {σ σ' : Subst} {π π' : Nat → Nat} {D D' : N
     (h : GRel lv σ π D G R) (hD : ∀ v, D v → D' v)
     (heq : ∀ t, InD D t → img σ' π' t = img σ π t) :
     GRel lv σ' π' D' G R := by
-  induction h with
-  | nil => exact .nil
-  | cons hd _ ih =>
-    obtain ⟨hg, l, rfl, hl⟩ := hd
-    exact .cons ⟨fun v hv => hD v (hg v hv), l, by rw [heq _ hg], hl⟩ ih
+  refine h.imp ?_
+  rintro g _ fr ⟨hg, l, hfr, hl⟩
+  refine ⟨fun v hv => hD v (hg v hv), l, ?_, hl⟩
+  rw [heq _ hg]
+  exact hfr
 
 /-- substitutions that agree on a term agree on its variables -/
 theorem subst_eq_vars (s1 s2 : Subst) : ∀ t : Term, t.subst s1 = t.subst s2 → ∀ v, t.hasVar v = true → s1 v = s2 v := by
